@@ -64,6 +64,12 @@ func walk(cl adapt.Client, op adapt.Op, limit, maxPages, stopAfter int, start va
 		}
 		w.items = append(w.items, got.Items...)
 		w.leks = append(w.leks, got.LastKey)
+		if got.LastKeyEmpty {
+			// "a response without LastEvaluatedKey means the result is complete": a non-nil key without entries is not
+			// "without" for a caller (or SDK paginator) that tests the map against nil - it pages forever
+			w.problem = fmt.Sprintf("page %d carries a non-nil LastEvaluatedKey that has no entries instead of none", w.pages)
+			return w
+		}
 		if got.LastKey == nil {
 			return w
 		}
@@ -155,6 +161,10 @@ func (p *c04) RunCase(ctx *runner.Ctx) runner.CaseResult {
 			continue
 		}
 		U := base.Items
+		if base.LastKeyEmpty || base.LastKey != nil {
+			x.viol("page-protocol", "unpaginated/"+rq.op.Kind+featIdx(rq.op), fmt.Sprintf("[%s] %s without Limit: the complete result carries a LastEvaluatedKey (%s, non-nil without entries: %v)", adapter, rq.kind, base.LastKey.Canon(), base.LastKeyEmpty), witness(rq.op, nil))
+			continue
+		}
 		src, _ := t.Source(rq.op.Index)
 		n := len(src)
 		maxPages := n + 3
